@@ -9,7 +9,8 @@
                                              ConsensusPeers (a Go map: one entry per peer id)
     - .../header_sync/header_sync.go         SyncGenesisHeader, SyncBlockHeader
 
-    Integer expressions (both sides of the 2/3 comparison, the signature count handed to
+    How the key-height list is written (append + stable sort big -> small) is read from the AST
+    (Gen/CrossHeaderShape.v).  Integer expressions (both sides of the 2/3 comparison, the signature count handed to
     VerifyMultiSignature, the length test and loop bounds of VerifyMultiSignature) come from
     Gen/CrossHeader.v, regenerated from the Go AST on every run.
 
@@ -19,7 +20,7 @@
     a message number.  Definitions only, no proofs. *)
 From Coq Require Import List Bool NArith ZArith.
 Import ListNotations.
-From Ont Require Import Gen.CrossHeader.
+From Ont Require Import Gen.CrossHeader Gen.CrossHeaderShape.
 Local Open Scope N_scope.
 
 (** * Abstract signatures *)
@@ -101,7 +102,7 @@ Definition get_key_heights (st : hstore) (chain : N) : list N :=
 
 (** findKeyHeight: the first stored key height strictly below [height]. *)
 Definition find_key_height (st : hstore) (height chain : N) : option N :=
-  find (fun v => v <? height) (get_key_heights st chain).
+  if kh_find_first_below then find (fun v => v <? height) (get_key_heights st chain) else None.
 
 Definition mem (k : N) (l : list N) : bool := existsb (N.eqb k) l.
 
@@ -197,8 +198,15 @@ Fixpoint kh_insert (h : N) (l : list N) : list N :=
 (** KeyHeights.Serialization sorts the whole list (stable, descending) before writing. *)
 Definition kh_sort (l : list N) : list N := fold_left (fun acc x => kh_insert x acc) l [].
 
+(** How putConsensusPeers extends the list and what KeyHeights.Serialization does before writing
+    are read from the source (Gen/CrossHeaderShape.v). *)
+Definition kh_add (old : list N) (h : N) : list N :=
+  if kh_put_appends then old ++ [h] else h :: old.
+
+Definition kh_store (l : list N) : list N := if kh_write_sorts_desc then kh_sort l else l.
+
 Definition put_consensus_peers (st : hstore) (chain height : N) (ids : list N) : hstore :=
-  mkStore (set1 chain (kh_sort (get_key_heights st chain ++ [height])) (st_key_heights st))
+  mkStore (set1 chain (kh_store (kh_add (get_key_heights st chain) height)) (st_key_heights st))
           (set2 chain height (peer_map ids) (st_peers st)).
 
 (** UpdateConsensusPeer; [None] = JSON error. *)
